@@ -59,7 +59,15 @@ func init() {
 		// ... and between a recovered snapshot's applied index and the membership restore: lagging followers, members added meanwhile
 		runner.Part{Scenario: "simhost", Params: p("pmember", "30", "hosts", "5", "voters", "3", "snapshot", "5", "overhead", "0", "ccwindow", "80", "holdlen", "800", "smyield", "100", "election", "5", "ticknum", "1", "tickden", "4", "ppartition", "8", "pheal", "3", "pdrop", "0", "pcrash", "0", "pstall", "0", "checkquorum", "0", "prevote", "0", "readmix", "10", "clients", "1", "clientrate", "3", "ops", "40", "steps", "2500"), Share: 2})
 	sh("C04", 90, 1200, runner.Part{Scenario: "simhost", Params: p("pcrash", "12", "fsyield", "300", "torn", "1"), Share: 2},
-		runner.Part{Scenario: "simhost", Params: p("pcrash", "6", "fsyield", "50"), Share: 1})
+		runner.Part{Scenario: "simhost", Params: p("pcrash", "6", "fsyield", "50"), Share: 1},
+		// followers that lag, are caught up by InstallSnapshot (an update that carries a snapshot record and nothing else) and crash right after
+		runner.Part{Scenario: "simhost", Params: p("snapshot", "5", "overhead", "0", "ppartition", "12", "pheal", "8", "pcrash", "12", "prestart", "60", "fsyield", "300", "ops", "40", "tanlog", "0"), Share: 1},
+		// the log store side on its own, for the default Pebble store (which simhost does not run) and for Tan: saves of every update shape the
+		// raft core can produce, power loss between any two file system operations, reopen, compare with what the saves had acknowledged
+		runner.Part{Scenario: "l0/logstore", Params: p("store", "pebble-plain", "mode", "crash", "enum", "0"), Share: 1},
+		runner.Part{Scenario: "l0/logstore", Params: p("store", "pebble-batched", "mode", "crash", "enum", "0"), Share: 1},
+		runner.Part{Scenario: "l0/logstore", Params: p("store", "tan", "mode", "crash", "enum", "0"), Share: 1},
+		runner.Part{Scenario: "l0/logstore", Params: p("store", "tan", "mode", "crash", "enum", "1"), Share: 1})
 	sh("C05", 90, 1200, runner.Part{Scenario: "simhost", Params: p("sessions", "1", "sm", "1", "timeout", "30", "pdrop", "80", "pdup", "30", "ops", "40"), Share: 2},
 		runner.Part{Scenario: "simhost", Params: p("sessions", "1", "sm", "2", "lru", "2", "clients", "4", "snapshot", "5", "pcrash", "6"), Share: 2},
 		runner.Part{Scenario: "simhost", Params: p("sessions", "1", "lru", "3", "clients", "4", "ptransfer", "8", "ppartition", "8"), Share: 1},
